@@ -281,6 +281,12 @@ def translate_expression(expr, env: Env) -> TExp:  # noqa: C901
         elif isinstance(expr.op, ast.Sub) and hasattr(tleft[0], "sub"):
             return tleft[0].sub(tleft, tright)
         elif isinstance(expr.op, ast.Mult) and hasattr(tleft[0], "mul"):
+            if (
+                hasattr(tright[0], "BIT_SIZE_FRACTIONAL")
+                and not hasattr(tleft[0], "BIT_SIZE_FRACTIONAL")
+            ):
+                # integer * fixed is the fixed point multiplication too (as fixed * integer)
+                return tright[0].mul(tleft, tright)  # type: ignore
             return tleft[0].mul(tleft, tright)
         elif isinstance(expr.op, ast.Mod):
             return tleft[0].mod(tleft, tright)  # type: ignore
